@@ -5,12 +5,18 @@
      OpChunk bs ok   bytes bs become readable on the descriptor and the poller calls
                      RpcChannel::DescriptorReady until they are consumed or the channel is closed
                      (ok: whether replies written to the peer during this time succeed);
-     OpCall ok       the application calls a method through the channel (ok: whether Send succeeds).
+     OpCall streaming name req ok
+                     the application calls a method through the channel (streaming: the method's
+                     output type is STREAMING_NO_RESPONSE; ok: whether Send succeeds);
+     OpComplete q res ok
+                     the service behind the channel completes the request it was handed as number q
+                     (asynchronously, in any order) with reply / failure res.
    [run f r ops] is the model of the channel (with the fixes in props/C09/fixes) and returns the final
    receive state f, call state r and the trace of events; the segmentation of the byte stream into
    reads is the segmentation into chunks (a Receive of n bytes returns min(n, available)).
-   decode (RpcMessage::ParseFromArray), method_kind / req_ok / service (the RpcService behind the
-   channel) and the request the application sends are arbitrary functions / values. *)
+   decode (RpcMessage::ParseFromArray) and method_kind / req_ok / service (the RpcService behind the
+   channel: which methods it has, which request buffers parse, whether it completes a request inside
+   CallMethod or later) are arbitrary functions. *)
 From OlaBase Require Import Bytes.
 From C09 Require Import Gen Model Final.
 Local Open Scope N_scope.
@@ -32,9 +38,9 @@ Print Assumptions c09_consts.
    never waiting for more bytes than its buffer holds. *)
 Theorem c09_frame_safe :
   forall (decode : list N -> option msg) (method_kind : list N -> N) (req_ok : list N -> bool)
-         (service : list N -> list N -> sres) (call_name call_req : list N)
+         (service : list N -> list N -> option sres)
          (r0 : rpc) (ops : list op) (f : frame) (r : rpc) (tr : list event),
-  run decode method_kind req_ok service call_name call_req init_frame r0 ops = (f, r, tr) ->
+  run decode method_kind req_ok service init_frame r0 ops = (f, r, tr) ->
   (forall off n al bs, In (EvWrite off n al bs) tr -> off + n <= bs /\ bs <= al /\ bs <= 1048576) /\
   (forall e, In e tr -> oob e = false) /\
   ~ In EvOutOfFuel tr /\
@@ -47,7 +53,7 @@ Print Assumptions c09_frame_safe.
    returns it to the header state without touching the buffer, from any receive state. *)
 Theorem c09_reject_closes :
   forall (decode : list N -> option msg) (method_kind : list N -> N) (req_ok : list N -> bool)
-         (service : list N -> list N -> sres)
+         (service : list N -> list N -> option sres)
          (ok : bool) (f : frame) (r : rpc) (avail : list N) f' r' rest evs,
   dead r = false -> expected f = 0 ->
   let h := hdr f ++ take (N.min (4 - len (hdr f)) (len avail)) avail in
@@ -66,43 +72,101 @@ Print Assumptions c09_reject_closes.
    above 1 MB or undecodable body; an incomplete tail dispatches nothing. *)
 Theorem c09_dispatch :
   forall (decode : list N -> option msg) (method_kind : list N -> N) (req_ok : list N -> bool)
-         (service : list N -> list N -> sres) (call_name call_req : list N)
+         (service : list N -> list N -> option sres)
          (r0 : rpc) (ops : list op) (f : frame) (r : rpc) (tr : list event),
   dead r0 = false -> forallb healthy ops = true ->
-  run decode method_kind req_ok service call_name call_req init_frame r0 ops = (f, r, tr) ->
+  run decode method_kind req_ok service init_frame r0 ops = (f, r, tr) ->
   dispatched tr = frames decode (stream ops).
 Proof. exact dispatch_frames. Qed.
 Print Assumptions c09_dispatch.
 
-(* Exactly-once completion.  For every history (any number of calls, any bytes from the peer in any
-   chunking: responses in any order, duplicated, omitted, for unknown ids; sends that fail), starting
-   with any sequence number s0: call number k (id = (s0 + k) mod 2^32, also after the counter wraps)
-   is either completed exactly once and no longer registered, or not completed and still registered
-   under its id; calls not made are never completed; and every completion carries either the local
-   failure text (send failed / id reused by a newer call) or the outcome of a dispatched response
-   message whose id is the call's own id. *)
+(* Exactly-once completion.  For every history (any number of calls, streaming or not, any bytes from
+   the peer in any chunking: responses in any order, duplicated, omitted, for unknown ids; requests served
+   synchronously or later; sends that fail), starting with any sequence number s0: call number k (every
+   call, streaming included, draws one sequence number: id = (s0 + k) mod 2^32, also after the counter
+   wraps) is
+     - a streaming call: never completed and never registered, or
+     - completed exactly once and no longer registered, or
+     - not completed and still registered under its id;
+   calls not made are never completed; and every completion carries either the local failure text (send
+   failed / id reused by a newer call) or the outcome of a dispatched response message whose id is the
+   call's own id. *)
 Theorem c09_once :
   forall (decode : list N -> option msg) (method_kind : list N -> N) (req_ok : list N -> bool)
-         (service : list N -> list N -> sres) (call_name call_req : list N)
+         (service : list N -> list N -> option sres)
          (s0 : N) (ops : list op) (f : frame) (r : rpc) (tr : list event),
   s0 < 4294967296 ->
-  run decode method_kind req_ok service call_name call_req init_frame (mkRpc false s0 0 []) ops = (f, r, tr) ->
+  run decode method_kind req_ok service init_frame (mkRpc false s0 0 [] 0 [] []) ops = (f, r, tr) ->
   (forall k, k < ncalls r ->
-     (cnt k (dones tr) = 1%nat /\ lookup (u32 (s0 + k)) (responses r) <> Some k) \/
-     (cnt k (dones tr) = 0%nat /\ lookup (u32 (s0 + k)) (responses r) = Some k)) /\
+     (In k (streams tr) /\ cnt k (dones tr) = 0%nat /\ lookup (u32 (s0 + k)) (responses r) <> Some k) \/
+     (~ In k (streams tr) /\
+      ((cnt k (dones tr) = 1%nat /\ lookup (u32 (s0 + k)) (responses r) <> Some k) \/
+       (cnt k (dones tr) = 0%nat /\ lookup (u32 (s0 + k)) (responses r) = Some k)))) /\
   (forall k, ncalls r <= k -> cnt k (dones tr) = 0%nat) /\
   (forall id k, lookup id (responses r) = Some k -> k < ncalls r /\ id = u32 (s0 + k)) /\
   (forall k o, In (k, o) (dones tr) ->
      o = OFailed TXT_SEND_FAILED \/ o = OFailed TXT_DUPLICATE \/
-     exists m, In m (dispatched tr) /\ m_id m = u32 (s0 + k) /\ resp_outcome m = Some o).
+     exists m, In m (dispatched tr) /\ m_id m = u32 (s0 + k) /\ resp_outcome m = Some o) /\
+  seq r = u32 (s0 + ncalls r) /\
+  (forall k, In k (streams tr) -> k < ncalls r).
 Proof. exact once. Qed.
 Print Assumptions c09_once.
+
+(* What a call puts on the wire.  In any call state the (only) message CallMethod writes is a
+   REQUEST / STREAM_REQUEST carrying the current sequence number (which c09_once shows to be
+   (s0 + k) mod 2^32 for call k), the counter advances by one for streaming calls too, and a streaming
+   call completes nothing and registers nothing. *)
+Theorem c09_call_wire :
+  forall (cl ok st : bool) (nm rq : list N) (r r' : rpc) (evs : list event),
+  call_method cl ok st nm rq r = (r', evs) ->
+  (forall m, In m (sends evs) -> m = mkMsg (if st then STREAM_REQUEST else REQUEST) (seq r) nm rq) /\
+  ncalls r' = ncalls r + 1 /\ seq r' = u32 (seq r + 1) /\
+  (st = true -> dones evs = [] /\ responses r' = responses r).
+Proof. exact call_wire. Qed.
+Print Assumptions c09_call_wire.
+
+(* Ids of different calls (streaming or not) never collide while fewer than 2^32 sequence numbers lie
+   between them. *)
+Theorem c09_ids_distinct :
+  forall s0 k k', k' < k -> k < k' + 4294967296 -> u32 (s0 + k) <> u32 (s0 + k').
+Proof. exact stream_ids. Qed.
+Print Assumptions c09_ids_distinct.
+
+(* No cross completion.  In any reachable state, a message can only complete the call whose id it
+   carries: if a message with the id of call k (e.g. the NOT_IMPLEMENTED answer to streaming call k) would
+   complete a registered call k', then k' = k (fewer than 2^32 calls apart).  Since streaming calls are
+   never registered (c09_once), replies to them complete nothing. *)
+Theorem c09_no_cross :
+  forall (decode : list N -> option msg) (method_kind : list N -> N) (req_ok : list N -> bool)
+         (service : list N -> list N -> option sres)
+         (s0 : N) (ops : list op) (f : frame) (r : rpc) (tr : list event),
+  s0 < 4294967296 ->
+  run decode method_kind req_ok service init_frame (mkRpc false s0 0 [] 0 [] []) ops = (f, r, tr) ->
+  forall m k k', lookup (m_id m) (responses r) = Some k' -> m_id m = u32 (s0 + k) ->
+  k < k' + 4294967296 -> k' < k + 4294967296 -> k' = k.
+Proof. exact no_cross. Qed.
+Print Assumptions c09_no_cross.
+
+(* The serving side is a conforming peer: for every history (requests with any ids, duplicated ids while
+   a request is outstanding, unknown methods, streaming requests, the service answering at once or later
+   and in any order), every reply-type message the channel writes (RESPONSE, RESPONSE_FAILED,
+   RESPONSE_NOT_IMPLEMENTED) carries the id of a REQUEST / STREAM_REQUEST message it was sent. *)
+Theorem c09_reply_ids :
+  forall (decode : list N -> option msg) (method_kind : list N -> N) (req_ok : list N -> bool)
+         (service : list N -> list N -> option sres)
+         (r0 : rpc) (ops : list op) (f : frame) (r : rpc) (tr : list event),
+  requests r0 = [] ->
+  run decode method_kind req_ok service init_frame r0 ops = (f, r, tr) ->
+  forall m', In m' (sends tr) -> is_reply m' = true ->
+  exists m, In m (dispatched tr) /\ m_id m = m_id m' /\ is_request m = true.
+Proof. exact reply_ids. Qed.
+Print Assumptions c09_reply_ids.
 
 (* An answer completes: when a response-type message (reply, failed, cancelled, not implemented) is
    dispatched in any call state, the call registered under its id (if any) is completed with exactly
    that message's outcome and unregistered; an unknown id changes nothing. *)
 Theorem c09_answer :
-  forall (method_kind : list N -> N) (req_ok : list N -> bool) (service : list N -> list N -> sres)
+  forall (method_kind : list N -> N) (req_ok : list N -> bool) (service : list N -> list N -> option sres)
          (cl ok : bool) (r : rpc) (m : msg) (o : outcome) (r' : rpc) (evs : list event),
   resp_outcome m = Some o ->
   dispatch method_kind req_ok service cl ok r m = (r', evs) ->
@@ -117,9 +181,9 @@ Print Assumptions c09_answer.
 (* A call whose request cannot be sent (Send fails, or the channel is already closed / released) is
    completed at once, exactly once, with "Failed to send request", and is not registered. *)
 Theorem c09_send_failed :
-  forall (call_name call_req : list N) (cl ok : bool) (r r' : rpc) (evs : list event),
+  forall (cl ok : bool) (nm rq : list N) (r r' : rpc) (evs : list event),
   ok = false \/ dead r || cl = true ->
-  call_method call_name call_req cl ok r = (r', evs) ->
+  call_method cl ok false nm rq r = (r', evs) ->
   dones evs = [(ncalls r, OFailed TXT_SEND_FAILED)] /\ responses r' = responses r.
 Proof. exact send_failed. Qed.
 Print Assumptions c09_send_failed.
@@ -130,21 +194,39 @@ Print Assumptions c09_send_failed.
 Definition ex_decode (b : list N) : option msg :=
   match b with x :: _ => Some (mkMsg RESPONSE x [] b) | [] => None end.
 Definition ex_ops : list op :=
-  [OpCall true; OpCall true; OpChunk [2; 0] true; OpChunk [0; 16; 1] true; OpChunk [9; 2; 0; 0; 16; 0] true;
-   OpChunk [8; 2; 0; 0; 16; 1; 7] true].
+  [OpCall false [69] [1] true; OpCall true [83] [2] true; OpCall false [69] [1] true;
+   OpChunk [2; 0] true; OpChunk [0; 16; 2] true; OpChunk [9; 2; 0; 0; 16; 0] true;
+   OpChunk [8; 2; 0; 0; 16; 1; 7; 2; 0; 0; 16; 2; 6] true].
+(* calls 0 and 2 are ordinary (ids 0, 2), call 1 is a streaming call (id 1); the peer answers 2, 0, then
+   sends a message with the streaming call's id 1 (ignored) and a duplicate of reply 2 (ignored) *)
 Example c09_example :
-  let '(f, r, tr) := run ex_decode (fun _ => 0) (fun _ => true) (fun _ _ => SReply []) [69] [1]
+  let '(f, r, tr) := run ex_decode (fun _ => 0) (fun _ => true) (fun _ _ => Some (SReply []))
                          init_frame init_rpc ex_ops in
   forallb healthy ex_ops = true /\
-  dispatched tr = [mkMsg 2 1 [] [1; 9]; mkMsg 2 0 [] [0; 8]; mkMsg 2 1 [] [1; 7]] /\
+  dispatched tr = [mkMsg 2 2 [] [2; 9]; mkMsg 2 0 [] [0; 8]; mkMsg 2 1 [] [1; 7]; mkMsg 2 2 [] [2; 6]] /\
   dispatched tr = frames ex_decode (stream ex_ops) /\
-  dones tr = [(1, OReply [1; 9]); (0, OReply [0; 8])] /\
+  dones tr = [(2, OReply [2; 9]); (0, OReply [0; 8])] /\
+  streams tr = [1] /\
+  sends tr = [mkMsg 1 0 [69] [1]; mkMsg 10 1 [83] [2]; mkMsg 1 2 [69] [1]] /\
   responses r = [] /\ closed f = false /\ bufsz f = 2.
+Proof. vm_compute. repeat split; reflexivity. Qed.
+
+(* serving side: two requests with the same id 5 while the first is still with the service (which
+   answers later): the first is failed towards the client, and only the second gets the service's reply *)
+Definition ex_decode_req (b : list N) : option msg :=
+  match b with x :: _ => Some (mkMsg REQUEST x [69] b) | [] => None end.
+Example c09_example_server :
+  let '(f, r, tr) := run ex_decode_req (fun _ => 1) (fun _ => true) (fun _ _ => None)
+                         init_frame init_rpc
+                         [OpChunk [1; 0; 0; 16; 5] true; OpChunk [1; 0; 0; 16; 5] true;
+                          OpComplete 0 (SReply [7]) true; OpComplete 1 (SReply [8]) true] in
+  sends tr = [mkMsg RESPONSE_FAILED 5 [] []; mkMsg RESPONSE 5 [] [8]] /\
+  requests r = [] /\ cancelled r = [] /\ nreq r = 2.
 Proof. vm_compute. repeat split; reflexivity. Qed.
 
 (* a wrong-version header after a valid message closes the channel; later bytes are not written anywhere *)
 Example c09_example_reject :
-  let '(f, r, tr) := run ex_decode (fun _ => 0) (fun _ => true) (fun _ _ => SReply []) [69] [1]
+  let '(f, r, tr) := run ex_decode (fun _ => 0) (fun _ => true) (fun _ _ => Some (SReply []))
                          init_frame init_rpc
                          [OpChunk [1; 0; 0; 16; 5] true; OpChunk [96; 234; 0; 32] true; OpChunk [65; 65; 65] true] in
   closed f = true /\ expected f = 0 /\ bufsz f = 2048 /\
